@@ -62,6 +62,13 @@ Shared(s, m) == LET sing == SingularSc(s)
                     want |-> IF sing THEN <<>> ELSE [k \in 1..Len(s.bs) |-> WantSc(s, k)],
                     sdy |-> [k \in 1..Len(s.bs) |-> m.cls = "ok" /\ m.dy /\ ModelSol(s, m, k).dy]]
 
+\* Exactness ("floating point is exact on an all-dyadic elimination") is a statement about the elimination path the
+\* model took.  Partial pivoting leaves ties open: an implementation that resolves a tie differently follows another
+\* path, on which intermediates need not be dyadic.  The exactness clauses therefore apply only where the pivot rows
+\* reported by the code agree with the model's wherever both are set; otherwise the tolerance forms apply.
+SamePath(ipObs, ipModel) == Len(ipObs) = Len(ipModel) /\ \A k \in 1..Len(ipObs) : ipObs[k] = -1 \/ ipModel[k] = UNSET \/ ipObs[k] = ipModel[k]
+OnPath(x, same) == IF same THEN x ELSE [x EXCEPT !.sdy = [k \in DOMAIN x.sdy |-> FALSE]]
+
 WellFormedSc(s) ==
   /\ s.kind \in {"real", "complex"}
   /\ s.n \in 1..4 /\ Len(s.A) = s.n /\ (s.kind = "complex" => Len(s.AI) = s.n /\ s.n <= 3)
@@ -71,7 +78,7 @@ WellFormedSc(s) ==
 \* checks common to dec(full) and dec(banded): s = scenario, m = Level-B result
 DecChecks(r, s, m, x) ==
   LET sing == x.sing
-      okClass == C16_Class(sing, m.dy, r.cls)
+      okClass == C16_Class(sing, m.dy /\ SamePath(r.ip, m.ip), r.cls)
       okMult == C16_Multipliers(r.cls, r.mult_ok)
       bad == BadPivotStage(s, r.ip, r.cls)
       okPiv == C16_PivotMax(bad)
@@ -128,7 +135,7 @@ Step ==
         \* (primed variables, not LET: TLC evaluates a LET definition again at every use)
         /\ sc' = r.sc /\ sid' = r.sid
         /\ mD' = ModelDec(sc')
-        /\ mX' = Shared(sc', mD')
+        /\ mX' = OnPath(Shared(sc', mD'), SamePath(r.ip, mD'.ip))
         /\ DecChecks(r, sc', mD', mX') = TRUE   \* "= TRUE": evaluated as one expression, so that its LET definitions are evaluated once
         /\ pc' = IF r.cls = "ok" THEN "sol_full" ELSE "dec_banded"
      \/ /\ pc = "sol_full" /\ r.act = "sol" /\ r.storage = "full" /\ r.sid = sid
@@ -136,7 +143,8 @@ Step ==
         /\ pc' = "dec_banded" /\ UNCHANGED <<sid, sc, mD, mX>>
      \/ /\ pc = "dec_banded" /\ r.act = "dec" /\ r.storage = "banded" /\ r.sid = sid
         /\ DecChecks(r, sc, mD, mX) = TRUE
-        /\ pc' = (IF r.cls = "ok" THEN "sol_banded" ELSE "start") /\ UNCHANGED <<sid, sc, mD, mX>>
+        /\ mX' = OnPath(mX, SamePath(r.ip, mD.ip))
+        /\ pc' = (IF r.cls = "ok" THEN "sol_banded" ELSE "start") /\ UNCHANGED <<sid, sc, mD>>
      \/ /\ pc = "sol_banded" /\ r.act = "sol" /\ r.storage = "banded" /\ r.sid = sid
         /\ SolChecks(r, sc, mD, mX) = TRUE
         /\ pc' = "start" /\ UNCHANGED <<sid, sc, mD, mX>>
